@@ -62,7 +62,8 @@ func (fc *funcContext) translateStmt(stmt ast.Stmt, label *types.Label) {
 			if ifStmt.Init != nil {
 				panic("simplification error")
 			}
-			caseClauses = append(caseClauses, &ast.CaseClause{List: []ast.Expr{ifStmt.Cond}, Body: ifStmt.Body.List})
+			// The position of the clause is what the condition's code is mapped to.
+			caseClauses = append(caseClauses, &ast.CaseClause{Case: ifStmt.If, List: []ast.Expr{ifStmt.Cond}, Body: ifStmt.Body.List})
 			elseStmt, ok := ifStmt.Else.(*ast.IfStmt)
 			if !ok {
 				break
